@@ -19,7 +19,11 @@ def container(kind_text, ref, extra=""):
               "assertions); TLC-generated behaviours (simulate + all histories of bounded length) and biased harness "
               "histories are replayed through the public API of real objects under several label maps and listing "
               "orders, and every logged event (state projection + queries) is re-executed by TLC against Trace_HGX. "
-              "%sExhaustive only for the small universes; larger ones are sampled." % (kind_text, extra)),
+              "%sHistories are replayed under seven label families (small / sparse / large / negative ints, short and long "
+              "strings; every label is passed as a fresh equal object), with explicit zero weights, falsy and nested metadata "
+              "values, and in three observation modes (queries after most calls, after every third call, only at the end) so "
+              "that stale caches are not refreshed by the observer. Exhaustive only for the small universes; larger ones are "
+              "sampled." % (kind_text, extra)),
         note=NOTE, technique=TECH)
 
 
@@ -47,7 +51,8 @@ CHECKS = {
               "rationals; TLC checks ExactLeStrongLeWeak, PointwiseImplication, RatiosInUnitInterval, SignatureCellSum and "
               "InOutDegreeSum in every reachable state of the bounded directed container (3 nodes, all 4096 key sets), and "
               "validates the values returned by hypergraphx.measures.directed.* for every directed hypergraph on 3 nodes "
-              "(thorough; a seeded sample in quick) and random ones on 4-6 nodes with bounds 2..7, under four label maps."),
+              "(thorough; a seeded sample in quick) and random ones on 4-6 nodes with bounds 2..7, under four label maps; every third "
+              "input is a weighted DirectedHypergraph with weights != 1 (the measures count hyperedges, not weights)."),
         note=TB + " Returned floats are converted to the nearest fraction with denominator <= 1000, which must reproduce the float.",
         technique="TLA+ definitions + TLC exhaustive invariants; TLC validation of logged return values (one-call traces)"),
     "C16": dict(
@@ -65,7 +70,10 @@ CHECKS = {
               "seeds, 3-4 consecutive samples) is judged by TLC against the conjuncts of SamplerPost through the public API, "
               "and against a twin sampler built with the same parameters and seed (SeedFunctional). With HGX_VERIF=1 every "
               "_extract_hye, _mcmc_step and yield is additionally validated as a step of Sampler.tla (model clauses: "
-              "MODEL-DRIFT, never a violation)."),
+              "MODEL-DRIFT, never a violation), and the statement's exactness claim is applied whenever the logged chain at the "
+              "yield holds no two equal hyperedges (property clause exact_when_no_coincidence_at_yield). A third of the inputs use "
+              "hard 0/1 memberships with diagonal affinity (zero-rate hyperedges); multi-call runs make 2-4 sample() calls on one "
+              "sampler object and judge every sample against the flag reported at that time."),
         note=TB + " Exactness is applied when num_edges(sample) equals the number of hyperedges asked for (shown equivalent to "
              "'no coincidence, no zero weight' on the design). Initial hypergraphs have hyperedges of size >= 2; numpy integer "
              "weights count as integers (type test in Python, sign in TLC). Runs that raise before the first sample (too few "
@@ -98,7 +106,8 @@ CHECKS = {
               "(quick 2400, thorough 31800) over parameter grids x seeds, incl. scale_free_hypergraph with default arguments, "
               "correlated/uncorrelated, corr_target given or omitted, activity vectors with 0/1 entries, weighted/metadata-carrying "
               "arguments under four label maps; the rewired hyperedges of random_shuffle are captured by a harness-side wrapper of "
-              "random.sample (weaker clauses when not observable). Sampled over seeds and grids, not exhaustive for the real code."),
+              "random.sample (weaker clauses when not observable); scale_free requests at and next to saturation (calls longer than "
+              "2 s are counted, not judged). Sampled over seeds and grids, not exhaustive for the real code."),
         note=TB + " Reproducibility demanded for random_hypergraph/random_uniform_hypergraph only; admissible grids keep requested counts "
                   "feasible; a call must return within 30 s.",
         technique="TLA+ relations + TLC exhaustive check of sampler models; TLC validation of logged calls incl. a batch-wide seed-functionality history"),
@@ -121,7 +130,9 @@ CHECKS = {
               "returned mapping required only to be a bijection, incidence columns matched to hyperedges as a bag) for all hypergraphs on "
               "3 nodes and (thorough) all 32768 on 4 nodes, random weighted/unweighted ones on 2-6 nodes, uniform ones on nodes 0..N-1 "
               "for the tensor and random temporal hypergraphs at every time, under four label families (sparse ints, strings, 0..N-1, 1..N), "
-              "with isolated nodes, every order present or absent and both keep_isolated_nodes values."),
+              "with isolated nodes, every order present or absent and both keep_isolated_nodes values; hub inputs (a node in >= 256 "
+              "hyperedges of one order, a pair in >= 256 hyperedges), non-integer weights (as quarters) and re-observation of the "
+              "SAME object after count-preserving mutations."),
         note=TB + " Entries must be integral (checked in Python) and are compared as integers by TLC. The Laplacian returns no mapping: "
                   "its rows are read through the mapping of adjacency_matrix_by_order for the same order. Dual adjacency indices are read as "
                   "positions in get_edges() (any consistent renumbering accepted for <= 6 hyperedges). Per-order matrices only on unweighted "
@@ -197,7 +208,9 @@ CHECKS = {
               "baseline_r0, min_value_par, check_convergence_every) is run twice; its train_info table (and mt_step/mt_end hook events when "
               "installed) is re-executed by TLC against EMDriver (ascent per realisation for normalizeU=False, maxL = best final value, model "
               "clauses for order/stopping/chosen realisation), and the discrete output contracts of HypergraphMT.fit and HySC.fit are decided "
-              "by TLC on logged flags/integers (Trace_C17: isolated set and D computed by TLC). Sampled, not exhaustive."),
+              "by TLC on logged flags/integers (Trace_C17: isolated set and D computed by TLC). Non-integer weights, model objects "
+              "that were fitted before on another hypergraph, and a second same-seed run under a different global RNG state are "
+              "part of the inputs. Sampled, not exhaustive."),
         note=TB + " Decided in Python: the log-likelihood from its definition with brute-force e_d (1e-8 relative plus a forward rounding "
              "bound of the recurrences), tolerance ranks of the recorded log-likelihoods (a harness subclass observing _LogLikelihood supplies "
              "the rounding bound; values computed while a logged hyperedge has rate 0 count as -inf), finite/non-negative/row-sum flags.",
@@ -213,7 +226,9 @@ CHECKS = {
               "transition_matrix, RW_stationary_state and every random_walk_density step (s_t K with the specification's K) are compared, "
               "sampled walks are decided by TLC as K-positive steps; simplicial_contagion runs (all 3-node hypergraphs x initial sets x 8 "
               "deterministic regimes, random larger ones and random rates/seeds, four label maps) are trace-validated: exact trajectory in "
-              "the deterministic regimes, bounds and monotonicity elsewhere, and with the hook every sweep as one Sweep step."),
+              "the deterministic regimes, bounds and monotonicity elsewhere, and with the hook every sweep as one Sweep step. Objects "
+              "edited after a first call (stale caches), integer-typed densities and nodes lying only in hyperedges of size 4-5 are "
+              "part of the inputs."),
         note=TB + " Floats are compared with TLC's exact rationals at 1e-9 (1e-8 for the solved stationary vector) in numpy; numpy's global "
                   "generator is seeded per call; intermediate rates: only bounds/monotonicity are verdict-bearing (sweep relation = MODEL-DRIFT); "
                   "exhaustive only for the small universes.",
@@ -229,7 +244,8 @@ CHECKS = {
               "with s_betweenness/closeness (s = 1..3), the node versions and the averaged versions; relabelling events compare values through "
               "the permutation. Sub-hypergraph centrality is compared with log(expm(Adj)_ii) computed by scipy on the specification's Adj; "
               "CEC/HEC (connected 3-/4-uniform, labels 0..N-1, many random starts): positivity, normalisation and eigen-equation residuals "
-              "evaluated with the specification's clique-expansion matrix and hyperedges."),
+              "evaluated with the specification's clique-expansion matrix and hyperedges; a share of the objects is edited after a "
+              "first call and evaluated again."),
         note=TB + " Not decided by TLA+: matrix exponential and eigen-residual arithmetic (numpy/scipy on spec-provided integer structures); "
                   "runs printing 'did not converge' are counted, not judged; snapshot node sets accepted both ways; sampled, not exhaustive, beyond 4 nodes.",
         technique="TLA+ exact-rational Brandes/closeness on the spec's own projections + TLC invariants; TLC oracle mode; numpy on spec structures for real-valued claims"),
